@@ -597,13 +597,17 @@ Definition recover_validate (s : stage) (o : nat) : stage :=
   then set_cmps (aremove n (cmps s)) (set_fulls (aremove n (fulls s)) s)
   else process (to_cache s o ST_RECEIVED) o.
 
-Definition recover (s : stage) (now : Z) : stage :=
+(* [oldest] = modification time of the oldest companion found on the stage (an input:
+   the model keeps no file times; [now] when there is none): the receive log is read
+   back to a day before it, so that a retransmission that was in flight when the
+   process stopped - however long ago - is compared with the record of its delivery *)
+Definition recover (s : stage) (now oldest : Z) : stage :=
   let '(s1, fin, val) := fold_left recover_one (cmps s) (s, [], []) in
-  let s2 := build_cache s1 now (now - 86400) in
+  let s2 := build_cache s1 now (Z.min now oldest - 86400) in
   let s3 := fold_left (fun acc o => let a := to_cache acc o ST_VALIDATED in set_fq (fq a ++ [o]) a) fin s2 in
   fold_left recover_validate val s3.
 
-Definition restart (s : stage) (now : Z) : stage := recover (crash s) now.
+Definition restart (s : stage) (now oldest : Z) : stage := recover (crash s) now oldest.
 
 End WithHash.
 
@@ -617,7 +621,7 @@ Inductive sop :=
 | OScanQ
 | OClean
 | OTimers
-| ORestart (now : Z)
+| ORestart (now oldest : Z)
 | OAge (n : name)                       (* the partial's mtime becomes older than the cleaning age *)
 | OTamper (n : name) (ext : Z) (data : list Z)   (* overwrite a staged body: 0 part 1 full 2 wait *)
 | OImage (img : stage)                          (* process death: the durable state found on disk, volatile state gone *)
@@ -642,7 +646,7 @@ Definition sstep (H : list Z -> name) (s : stage) (op : sop) : stage * sout :=
   | OScanQ => let '(s', l) := scan_q s in (s', RScan l)
   | OClean => (clean s, RNone)
   | OTimers => (timers_fire s, RNone)
-  | ORestart now => (restart H s now, RNone)
+  | ORestart now oldest => (restart H s now oldest, RNone)
   | OAge n => (match alookup n (parts s) with
                | Some sf => set_parts (aset n (mksf (sf_data sf) true) (parts s)) s
                | None => s end, RNone)
